@@ -13,7 +13,8 @@ def run(tier):
     chk.rule = ("model: all histories <= MaxOps of add/clear/copy/destroy; (G) generated histories without copies replayed on "
                 "each of the nine real tables with values built in fresh objects (pairs differing in exactly one optional "
                 "member); longer random histories with copies onto used blocks; (T) growth sequences of thousands of adds from small and large domains; exporter streams across "
-                "many block flushes with TLC checking every written table for duplicates and index closure")
+                "many block flushes with TLC checking every written table for duplicates and index closure, also with 8 threads "
+                "filling their own blocks at the same time")
     chk.assumptions = ["TLC + CommunityModules", "driver value mapping id -> concrete table value (harness/tbl_driver.cpp)"]
     table_models(chk, tier)
     hs = generated(chk, 4, "{0, 1, 2, 5}", need_copy=False, limit=1500 if tier == "quick" else None)
@@ -29,7 +30,14 @@ def run(tier):
     ex = [histgen.gen_history(rng2, nops=rng2.choice([40, 80]), comp="none", sizes=[1, 2, 3, 6], rot=False,
                               qr_mode=rng2.choice([None, "dense"])) for _ in range(n)]
     m2 = run_histories(chk, ex, {"C11", "C02"}, label="c11x", sample=False)
-    chk.distinct = m1["execs"] + m2["execs"]
+    # the tables of a block belong to that block alone: blocks filled by different threads at the same time (each thread
+    # its own exporter) stay closed and de-duplicated - every output parsed by TLC as above
+    from checks.c20 import run_threads
+    rng3 = rng_for(chk, 111)
+    th = [histgen.gen_history(rng3, nops=rng3.choice([30, 60]), comp="none", sizes=[3, 10000], rot=False, qr_mode="dense")
+          for _ in range(32 if tier == "quick" else 300)]
+    m3 = run_threads(chk, "plain", 8, 2, th, "c11t", relevant={"C11"})
+    chk.distinct = m1["execs"] + m2["execs"] + m3["execs"]
     return chk.finish()
 
 
